@@ -238,9 +238,6 @@ func init() {
 				if a.IsConst() || b.IsConst() {
 					return ex.st.Mul(a, b), nil
 				}
-				if a.ID > b.ID {
-					a, b = b, a
-				}
 			} else if b.IsConst() && b.Val != 0 {
 				op := smt.OpSDiv
 				if name == "rem" {
@@ -248,7 +245,7 @@ func init() {
 				}
 				return ex.st.Bin(op, a, b), nil
 			}
-			return ex.st.UF("uf_"+name, 64, a, b), nil
+			return ex.st.SignedUF(name, a, b), nil
 		},
 		"vSharedWrites": func(ex *Exec, st *State, fr *Frame, args []Value, in ssa.Instruction) (Value, *forkReq) {
 			// number of stores to package-level variables since initialisation
